@@ -411,7 +411,7 @@ def rope_method(I, r, name, args, kw):
         if isinstance(old, str) and isinstance(new, str):
             if any(ch in B.FMT_ALPHABET for ch in old):
                 raise Unsupported('replace of a numeric char in symbolic text')
-            if any(not isinstance(p, str) and p.kind != 'f' for p in parts):
+            if any(not isinstance(p, str) and p.kind not in ('f', 'exact') for p in parts):
                 raise Unsupported('replace on opaque text')
             return Rope([p.replace(old, new) if isinstance(p, str) else p for p in parts])
     if name in ('strip', 'lstrip', 'rstrip'):
@@ -433,7 +433,7 @@ def rope_method(I, r, name, args, kw):
                 raise Unsupported('strip of symbolic piece')
         return Rope(new)
     if name == 'lower' or name == 'upper':
-        if all(isinstance(p, str) or p.kind == 'f' for p in parts):
+        if all(isinstance(p, str) or p.kind in ('f', 'exact') for p in parts):
             return Rope([getattr(p, name)() if isinstance(p, str) else p for p in parts])
     if name in ('startswith', 'endswith'):
         pre = args[0]
@@ -449,7 +449,7 @@ def rope_method(I, r, name, args, kw):
                 else:
                     res.append(False)
             return any(res)
-        if isinstance(p, Fmt) and p.kind == 'f' and all(isinstance(c, str) and c and
+        if isinstance(p, Fmt) and p.kind in ('f', 'exact') and all(isinstance(c, str) and c and
                                                           (c[0] if name == 'startswith' else c[-1]) not in B.FMT_ALPHABET for c in cands):
             return False
     if name == 'join':
@@ -463,7 +463,7 @@ def rope_method(I, r, name, args, kw):
     if name == 'split':
         sep = args[0] if args else None
         if isinstance(sep, str) and not any(ch in B.FMT_ALPHABET for ch in sep) and \
-                all(isinstance(p, str) or p.kind == 'f' for p in parts):
+                all(isinstance(p, str) or p.kind in ('f', 'exact') for p in parts):
             # split only inside concrete parts
             out = [[]]
             for p in parts:
@@ -490,7 +490,7 @@ def _fmt_safe_strip(piece, chars):
     """stripping `chars` cannot eat into a fixed-point rendering"""
     if isinstance(piece, str):
         return True
-    if piece.kind != 'f':
+    if piece.kind not in ('f', 'exact'):
         return False
     if chars is None:
         return True       # whitespace never occurs in a rendering
@@ -822,6 +822,8 @@ def b_float(I, v=0.0):
         ps = v.parts
         if len(ps) == 1 and isinstance(ps[0], Fmt) and ps[0].kind == 'f':
             return parse_fmt(I, ps[0])
+        if len(ps) == 1 and isinstance(ps[0], Fmt) and ps[0].kind == 'exact':
+            return b_float(I, ps[0].value)
         I.throw_or_unsupported = None
         raise Unsupported('float() of symbolic text')
     if isinstance(v, Arr) and v.shape == ():
